@@ -15,7 +15,9 @@ from __future__ import annotations
 
 import hashlib
 import json
+import atexit
 import os
+import shutil
 import sys
 import time
 import traceback
@@ -86,7 +88,9 @@ class Ctx:
         self.extra = {}
         self.t0 = time.time()
         self.exhaustive = False
-        self.work = os.path.join(VERIF, ".work", pid, f"s{seed}_{shard}")
+        # private to this process: two runs of the same check (other seed, other tree, other tier) may proceed side by side
+        self.work = os.path.join(VERIF, ".work", pid, f"s{seed}_{shard}_p{os.getpid()}")
+        atexit.register(shutil.rmtree, self.work, True)
 
     # ------------------------------------------------------------------ recording
     def note(self, case=None, nontrivial=False, classes=(), sample=None, key=None):
@@ -378,7 +382,7 @@ def write_evidence(pid, tier, seed, level, rule, assumptions, merged, wall, know
     d = os.path.join(VERIF, "evidence")
     os.makedirs(d, exist_ok=True)
     path = os.path.join(d, f"{pid}.json")
-    tmp = path + ".tmp"
+    tmp = path + f".tmp{os.getpid()}"
     with open(tmp, "w") as f:
         json.dump(ev, f, indent=1, sort_keys=True)
         f.write("\n")
